@@ -124,6 +124,31 @@ Theorem frame_cfg_payload_bit_flip_rejected : forall c hb p p' rest h,
 Proof. exact frame_cfg_payload_bit_flip_rejected_proved. Qed.
 Print Assumptions frame_cfg_payload_bit_flip_rejected.
 
+(* the per-connection loop (serveConn): good frames followed by ANY continuation
+   whose next frame the reader does not deliver (corrupted, truncated, bad magic,
+   poison, end of stream) hands over exactly the good frames, once each and in
+   order - nothing of or behind the bad frame; the loop then returns (the connection
+   worker closes the connection: regenerated fact serve_conn_then_close) *)
+Theorem serve_delivers_exactly_prefix : forall enc handle frames bad fuel,
+  Forall (fun f => frame_in_ok f /\ handle (write_header (fst f) (snd f) enc) (snd f) = Accepted) frames ->
+  (forall h p r, read_frame enc bad <> Delivered h p r) ->
+  (length frames < fuel)%nat ->
+  fst (fst (serve fuel enc handle (stream_of enc frames ++ bad))) =
+  map (fun f => (write_header (fst f) (snd f) enc, snd f)) frames.
+Proof. exact serve_delivers_exactly_prefix_proved. Qed.
+Print Assumptions serve_delivers_exactly_prefix.
+(* regenerated: the connection worker in TCP.Start is `t.serveConn(conn); closeFn()` *)
+Theorem serve_conn_return_closes_connection : serve_conn_then_close = true.
+Proof. exact serve_conn_then_close_proved. Qed.
+Print Assumptions serve_conn_return_closes_connection.
+Theorem serve_stops_at_bad : forall enc handle s fuel,
+  (forall h p r, read_frame enc s <> Delivered h p r) -> fst (fst (serve fuel enc handle s)) = [].
+Proof. exact serve_stops_at_bad_proved. Qed.
+Print Assumptions serve_stops_at_bad.
+Theorem serve_reader_is_read_frame : forall enc s, fst (read_frame_ex enc s) = read_frame enc s.
+Proof. exact read_frame_ex_fst. Qed.
+Print Assumptions serve_reader_is_read_frame.
+
 (* non-vacuity: a concrete frame is delivered, its 1-byte-shorter prefix is not *)
 Example frame_witness :
   let f := write_message (mkHeader raft_type 0 0) [1; 2; 3] false in
@@ -224,9 +249,36 @@ Theorem messagebatch_size_le_upper : forall b, wf_bt b -> bt_size b <= bt_size_u
 Proof. exact bt_size_le_upper_proved. Qed.
 Print Assumptions messagebatch_size_le_upper.
 
-(* ConfigChange, SnapshotHeader, RaftDataStatus, Bootstrap and Chunk are modelled
-   (Model/CodecProto.v) and compared byte for byte with the implementation; their
-   round-trip lemmas are not proved yet (same shape as the ones above). *)
+Theorem configchange_roundtrip : forall c, wf_cc c -> cc_decode (cc_encode c) = Some c.
+Proof. exact cc_roundtrip_proved. Qed.
+Print Assumptions configchange_roundtrip.
+Theorem configchange_size_exact : forall c, nlen (cc_encode c) = cc_size c.
+Proof. exact cc_size_exact_proved. Qed.
+Print Assumptions configchange_size_exact.
+Theorem raftdatastatus_roundtrip : forall s, wf_rds s -> rds_decode (rds_encode s) = Some s.
+Proof. exact rds_roundtrip_proved. Qed.
+Print Assumptions raftdatastatus_roundtrip.
+Theorem raftdatastatus_size_exact : forall s, nlen (rds_encode s) = rds_size s.
+Proof. exact rds_size_exact_proved. Qed.
+Print Assumptions raftdatastatus_size_exact.
+Theorem snapshotheader_roundtrip : forall s, wf_sh s -> sh_decode (sh_encode s) = Some s.
+Proof. exact sh_roundtrip_proved. Qed.
+Print Assumptions snapshotheader_roundtrip.
+Theorem snapshotheader_size_exact : forall s, nlen (sh_encode s) = sh_size s.
+Proof. exact sh_size_exact_proved. Qed.
+Print Assumptions snapshotheader_size_exact.
+Theorem bootstrap_roundtrip : forall b, wf_bs b -> bs_decode (bs_encode b) = Some b.
+Proof. exact bs_roundtrip_proved. Qed.
+Print Assumptions bootstrap_roundtrip.
+Theorem bootstrap_size_exact : forall b, nlen (bs_encode b) = bs_size b.
+Proof. exact bs_size_exact_proved. Qed.
+Print Assumptions bootstrap_size_exact.
+Theorem chunk_roundtrip : forall c, wf_ck c -> ck_decode (ck_encode c) = Some c.
+Proof. exact ck_roundtrip_proved. Qed.
+Print Assumptions chunk_roundtrip.
+Theorem chunk_size_exact : forall c, nlen (ck_encode c) = ck_size_of c.
+Proof. exact ck_size_exact_proved. Qed.
+Print Assumptions chunk_size_exact.
 
 (* ---------------------------------------------------------------------------
    entry payload encoding (internal/rsm/encoded.go); compression is a Section
